@@ -466,3 +466,58 @@ func VH_C15_password_set_while_connected() {
 		vassert("C15.unauthenticated_changes_nothing", vhSnapshot(s) == before)
 	}
 }
+
+// VH_C15_script_writes: the gates hold for writes issued from scripts: on a follower (caught up) and on a READONLY
+// server every data-modifying command called from EVAL / EVALNA / EVALRO (and their SHA forms) is refused and
+// changes nothing; EVALRO refuses them everywhere; on a writable leader EVAL / EVALNA apply and log them.
+//verif:cfg b_script_calls=14_write_commands_of_the_dispatcher_x_call|pcall b_kinds=EVAL,EVALNA,EVALRO,EVALSHA,EVALNASHA,EVALROSHA b_config=leader|caught-up_follower|READONLY ignorego=1
+func VH_C15_script_writes() {
+	s, _ := vhGateServer()
+	writes := [][]string{
+		{"set", "fleet", "truck9", "POINT", "1", "2"}, {"del", "fleet", "truck1"}, {"drop", "fleet"},
+		{"fset", "fleet", "truck1", "speed", "1"}, {"flushdb"}, {"expire", "fleet", "truck1", "5"},
+		{"persist", "fleet", "truck4"}, {"jset", "user", "u1", "age", "5"}, {"pdel", "fleet", "t*"},
+		{"rename", "fleet", "cars"}, {"renamenx", "fleet", "cars"}, {"jdel", "user", "u1", "name"},
+		{"setchan", "c9", "WITHIN", "fleet", "FENCE", "BOUNDS", "0", "0", "1", "1"}, {"delchan", "ch1"},
+	}
+	w := writes[vchoose(len(writes))]
+	fn := [2]string{"tile38.call(", "tile38.pcall("}[vchoose(2)]
+	script := "return " + fn
+	for i, a := range w {
+		if i > 0 {
+			script += ","
+		}
+		script += "'" + a + "'"
+	}
+	script += ")"
+	kind := vchoose(6)
+	cmd := [6]string{"EVAL", "EVALNA", "EVALRO", "EVALSHA", "EVALNASHA", "EVALROSHA"}[kind]
+	arg := script
+	if kind >= 3 {
+		r, _, err := vhDo(s, "SCRIPT", "LOAD", script)
+		vassert("C15.S.script_loads", err == nil)
+		arg = r.String()
+	}
+	cfg := vchoose(3)
+	switch cfg {
+	case 1:
+		s.config._followHost = "10.0.0.1"
+		s.config._followPort = 9851
+		s.fcupflags.Store(bitCaughtUp | bitCaughtUpOnce)
+	case 2:
+		s.config._readOnly = true
+	}
+	before := vhSnapshot(s)
+	aofBefore := len(s.aofbuf)
+	client := &Client{}
+	s.handleInputCommand(client, &Message{Args: []string{cmd, arg, "0"}, ConnType: RESP, OutputType: RESP})
+	after := vhSnapshot(s)
+	ro := kind == 2 || kind == 5
+	vobs("scriptwrite", cmd, fn, w[0], cfg, before != after)
+	if cfg != 0 || ro {
+		vassert("C15.S.script_write_is_refused_and_changes_nothing", before == after && len(s.aofbuf) == aofBefore)
+	} else if before != after {
+		vreach("script-write-applied-on-leader")
+		vassert("C15.S.script_write_on_leader_is_logged", len(s.aofbuf) > aofBefore)
+	}
+}
